@@ -182,6 +182,13 @@ def main(argv=None):
     seed = int(os.environ.get("VERIF_SEED", "0"))
     t0 = time.time()
     os.environ["PYTME_VERIF"] = "1"
+    import signal
+
+    def _timeout(*_):
+        print(f"TIMEOUT property={pid} (infrastructure limit reached; not a verdict)")
+        os._exit(2)
+    signal.signal(signal.SIGALRM, _timeout)
+    signal.alarm(int(os.environ.get("VERIF_TIMEOUT", "5400" if a.tier == "thorough" else "1500")))
     try:
         env.reexec_if_needed()
     except env.BuildError as e:
